@@ -814,7 +814,9 @@ int main(int argc, char **argv)
 
     std::vector<Case> cases;
     // corpus: minimized past failures first (JMI / Call-Invite lost on the receive path, fixed in /repo 968e727;
-    // <addresses/> in both toXml parts, fixed in 7d68095) - the oracle keys stay, so a regression is reported again
+    // <addresses/> in both toXml parts, fixed in 7d68095; unknown extension in clear and outside the envelope, fixed in
+    // e2ea074) - the oracle keys stay, so a regression is reported again
+    cases.push_back({ { { find("extensions"), &find("extensions")->variants[0] } } });
     cases.push_back({ { { find("jingleMessageInitiationElement"), &find("jingleMessageInitiationElement")->variants[0] } } });
     cases.push_back({ { { find("callInviteElement"), &find("callInviteElement")->variants[0] } } });
     cases.push_back({ { { find("extendedAddresses"), &find("extendedAddresses")->variants[0] } } });
